@@ -124,6 +124,9 @@ func genC20(e *emitter, tier string, seed int64) {
 		{"lineprotocol", "cpu,host=h1,region=r usage=1.5,n=3i,ok=true,s=\"str\" 1600000000000000000"},
 		{"lineprotocol", "m2 message=\"abc 7\" 5"},
 		{"lineprotocol", "not line protocol"},
+		// inputs beyond a mebibyte are inputs like any other
+		{"text", strings.Repeat("a", 1<<20+100) + " tail 7"},
+		{"lineprotocol", "big s=\"" + strings.Repeat("b", 1<<20+50) + "\",v=1i 5"},
 		// no point at all; the first point not on the first physical line; a newline inside a string field
 		{"lineprotocol", ""}, {"lineprotocol", "# only a comment\n"},
 		{"lineprotocol", "# comment first\ncpu,host=h2 v=1i 7\nsecond v=2i 8"}, {"lineprotocol", "\ncpu v=1.5 9"},
@@ -203,7 +206,7 @@ func genC20(e *emitter, tier string, seed int64) {
 		}
 		sort.Strings(names)
 		e.stat("cli:" + map[bool]string{true: "single", false: "workspace"}[single] + ":" + outType)
-		e.emit(map[string]any{"k": "cli", "gen": "cli", "key": fmt.Sprintf("%v | %s %q | single=%v noinput=%v out=%s", names, in.typ, in.data, single, noInput, outType),
+		e.emit(map[string]any{"k": "cli", "gen": "cli", "key": fmt.Sprintf("%v | %s %q | single=%v noinput=%v out=%s", names, in.typ, head(in.data, 200), single, noInput, outType),
 			"files": set, "linked": linked, "input": in.data, "type": in.typ, "out_type": outType, "single": single, "noinput": noInput,
 			"exit": exit, "crashed": strings.Contains(se.String(), "panic:") || strings.Contains(se.String(), "goroutine "), "stderr_tail": tail(se.String(), 400), "stderr_head": head(se.String(), 900), "printed": printed, "stdout_tail": tail(stdout, 600), "lib": want, "lib_err": werr})
 	}
